@@ -19,7 +19,7 @@ VAR_NAMES = ['x', 'y', 'z', 'u', 'v', 'w', 'p', 'q', 's', 't', 'n', 'm', 'a', 'b
 DEFAULT_FEATURES = {
     'lists': 0.5, 'records': 0.5, 'inj': 0.5, 'func': 0.6, 'or': 0.5, 'if': 0.4, 'bool_cols': 0.2,
     'agg': 0.0, 'combine': 0.0, 'neg': 0.0, 'named_perm': 0.0, 'nulls': 0.0, 'strings': 0.7,
-    'n_ext': (2, 4), 'n_der': (3, 6), 'max_facts': 6, 'typed': False, 'argminmax': 0.0,
+    'n_ext': (2, 4), 'n_der': (3, 6), 'max_facts': 6, 'typed': False, 'argminmax': 0.0, 'argk': 0.0,
 }
 
 
@@ -37,6 +37,7 @@ class Gen:
     self._reserved_rule_level = set()
     self._taken = set()
     self._call_bound = set()
+    self.k_aggs_used = set()
 
   # -- small helpers -----------------------------------------------------------------------------
   def p(self, name):
@@ -128,6 +129,27 @@ class Gen:
     self.order.append(name)
     return name
 
+  def gen_fun_facts(self):
+    """A functional predicate given by facts, deliberately with several values (and repeated rows) per argument:
+    `F(1) = 10; F(1) = 20; F(2) = 30; F(2) = 30;`"""
+    r = self.rng
+    name = self.fresh_name(FUN_NAMES, 'Fn')
+    kt, vt = self.scalar_type(), self.scalar_type()
+    keys = [self.const(kt) for _ in range(r.choice([1, 2, 2, 3]))]
+    rows = []
+    for _ in range(r.randint(2, max(2, self.f['max_facts']))):
+      if rows and r.random() < 0.25:
+        rows.append(r.choice(rows))
+      else:
+        rows.append((r.choice(keys), self.const(vt)))
+    for k, v in rows:
+      self.rules.append({'pred': name, 'args': [(None, k, None)], 'value': (v, None), 'distinct': False, 'body': None})
+    self.preds[name] = {'cols': [('col0', kt), ('logica_value', vt)], 'kind': 'fun', 'fields': [None, 'logica_value'],
+                        'value_type': vt, 'facts': True, 'keys': keys}
+    self.order.append(name)
+    self.mark('fun_facts')
+    return name
+
   # -- expressions ---------------------------------------------------------------------------
   def vars_of_type(self, bound, t):
     return [v for v, vt in bound.items() if vt == t]
@@ -146,6 +168,17 @@ class Gen:
           self.mark('field_access')
           return ('field', ir.V(v), r.choice([f for f, ft in vt[1] if ft == 'int']))
         return self.const('int')
+      if 0.66 <= x < 0.7:
+        # unary minus, sometimes of something that itself starts with a minus sign
+        self.mark('unary_minus')
+        y = r.random()
+        if y < 0.25:
+          inner = ('neg', self.gen_expr('int', bound, depth - 1, allow_fcall))
+        elif y < 0.4:
+          inner = ir.N(r.choice([-1, -2, -3]))
+        else:
+          inner = self.gen_expr('int', bound, depth - 1, allow_fcall)
+        return ('neg', inner)
       if x < 0.7:
         op = r.choice(['+', '+', '-', '*'])
         self.mark('arith')
@@ -159,6 +192,10 @@ class Gen:
       if x < 0.95 and allow_fcall and self.p('func'):
         e = self.gen_fcall('int', bound, depth)
         if e is not None:
+          if r.random() < 0.3:
+            # the same call text twice in one expression: two independent conjuncts (docs, "Functional notation")
+            self.mark('fcall_repeat')
+            return ('bin', r.choice(['+', '-', '*']), e, e)
           return e
       return self.gen_expr('int', bound, 0, allow_fcall)
     if t == 'str':
@@ -211,9 +248,19 @@ class Gen:
 
   def gen_fcall(self, t, bound, depth):
     cands = [n for n in self.order if self.preds[n].get('value_type') == t and self.preds[n]['kind'] in ('fun',)]
+    cands += [n for n in self.order if self.preds[n].get('value_type') == t and self.preds[n]['kind'] == 'inj'
+              and not isinstance(self.preds[n]['cols'][0][1], tuple)]
     if not cands:
       return None
+    again = [e for (e, tt, vs) in getattr(self, '_fcalls', []) if tt == t and all(bound.get(v) == vt for v, vt in vs.items())]
+    if again and self.rng.random() < 0.4:
+      self.mark('fcall_repeat')
+      self.mark('fcall')
+      return self.rng.choice(again)
     fname = self.rng.choice(cands)
+    facts = [n for n in cands if self.preds[n].get('facts')]
+    if facts and self.rng.random() < 0.5:
+      fname = self.rng.choice(facts)      # several values per argument: every occurrence of the call multiplies
     meta = self.preds[fname]
     args = []
     for (c, ct), f in zip(meta['cols'], meta['fields']):
@@ -221,9 +268,19 @@ class Gen:
         continue
       if isinstance(ct, tuple):
         return None
+      if meta.get('keys') and self.rng.random() < 0.6:
+        args.append((f, self.rng.choice(meta['keys'])))
+        continue
       args.append((f, self.gen_expr(ct, bound, min(depth - 1, 1), False)))
     self.mark('fcall')
-    return ('fcall', fname, tuple(args))
+    e = ('fcall', fname, tuple(args))
+    if not hasattr(self, '_fcalls'):
+      self._fcalls = []
+    vs = ir.expr_vars(e)
+    self._fcalls.append((e, t, {v: bound[v] for v in vs if v in bound}))
+    if meta['kind'] == 'inj':
+      self.mark('inj_comb_call')
+    return e
 
   # -- bodies --------------------------------------------------------------------------------
   def fresh_var(self, bound, hint=None):
@@ -242,7 +299,9 @@ class Gen:
     return v
 
   def callable_preds(self, exclude=()):
-    return [n for n in self.order if self.preds[n]['kind'] in ('ext', 'derived', 'fun', 'agg') and n not in exclude]
+    pool = getattr(self, 'call_pool', None)
+    return [n for n in self.order if self.preds[n]['kind'] in ('ext', 'derived', 'fun', 'agg') and n not in exclude
+            and (pool is None or n in pool)]
 
   def gen_call(self, bound, pred=None, must_bind=False, exclude=()):
     """Positive call; binds fresh variables for some columns, joins / selects on others.
@@ -298,7 +357,17 @@ class Gen:
       if cb:
         v = r.choice(cb)
         others = {k: vt for k, vt in bound.items() if k != v and k in self._call_bound}
-        return ('in', ir.V(v), ('list', tuple(self.gen_expr(t, others, 1, False) for _ in range(r.choice([1, 2, 3])))))
+        lhs = ir.V(v)
+        if r.random() < 0.4:
+          # a computed element: still one solution per matching list element
+          self.mark('in_filter_computed')
+          lhs = (('bin', r.choice(['+', '-', '*']), ir.V(v), ir.N(r.choice([1, 2]))) if t == 'int'
+                 else ('bin', '++', ir.V(v), ir.S(r.choice(['', 'a', 'b']))))
+        items = [self.gen_expr(t, others, 1, False) for _ in range(r.choice([1, 2, 3]))]
+        if r.random() < 0.4:
+          self.mark('in_repeated_element')
+          items.insert(r.randrange(len(items) + 1), r.choice(items))
+        return ('in', lhs, ('list', tuple(items)))
     if strs and r.random() < 0.25:
       return ('cmp', r.choice(['==', '!=', '<', '>=']), ir.V(r.choice(strs)), self.gen_expr('str', bound, 1, False))
     if ints:
@@ -313,6 +382,22 @@ class Gen:
     r = self.rng
     x = r.random()
     t = self.scalar_type()
+    headed = [n for n in self.order if self.preds[n].get('combine_headed')]
+    if headed and r.random() < 0.35:
+      # value of a body-less predicate whose head is an aggregating expression (injected into this rule)
+      name = r.choice(headed)
+      meta = self.preds[name]
+      v = self.fresh_var(bound)
+      if meta['kind'] == 'inj':
+        kt = meta['cols'][0][1]
+        vs = self.vars_of_type(bound, kt)
+        arg = ir.V(r.choice(vs)) if vs and r.random() < 0.8 else self.gen_expr(kt, bound, 1, False)
+        e = ('fcall', name, ((None, arg),))
+      else:
+        e = ('fcall', name, ())
+      bound[v] = meta['value_type']
+      self.mark('combine_headed_call')
+      return ('cmp', '==', ir.V(v), e)
     lists = [(v, vt) for v, vt in bound.items() if isinstance(vt, tuple) and vt[0] == 'list']
     if lists and x < 0.3:
       lv, lt = r.choice(lists)
@@ -332,7 +417,14 @@ class Gen:
         name = r.choice(inj)
         meta = self.preds[name]
         v = self.fresh_var(bound)
-        lit = ('call', name, ((None, self.gen_expr(meta['cols'][0][1], bound, 1, False)), (None, ir.V(v))))
+        if 'value_type' in meta:
+          # body-less injectible whose value is an aggregating expression: v == Fi(e)
+          if isinstance(meta['cols'][0][1], tuple):
+            return self.gen_filter(bound)
+          lit = ('cmp', '==', ir.V(v), ('fcall', name, ((None, self.gen_expr(meta['cols'][0][1], bound, 1, False)),)))
+          self.mark('inj_comb_call')
+        else:
+          lit = ('call', name, ((None, self.gen_expr(meta['cols'][0][1], bound, 1, False)), (None, ir.V(v))))
         bound[v] = meta['cols'][1][1]
         self.mark('inj_call')
         return lit
@@ -365,6 +457,7 @@ class Gen:
     self._reserved = set()
     self._reserved_rule_level = set()
     self._call_bound = set()
+    self._fcalls = []
     bound = {}
     lits = []
     n_calls = n_calls if n_calls is not None else r.choice([1, 1, 2, 2, 3])
@@ -454,6 +547,11 @@ class Gen:
     if op in ('ArgMin=', 'ArgMax='):
       kt = self.scalar_type()
       return ('arrow', self.gen_expr(kt, b, 1, False), self.gen_expr('int', b, 1, False)), kt
+    if op in ('ArgMin2=', 'ArgMax2=', 'ArgMin3='):
+      kt = self.scalar_type()
+      self.mark('k_aggregate')
+      self.k_aggs_used.add(op.rstrip('='))
+      return ('arrow', self.gen_expr(kt, b, 1, False), self.gen_expr('int', b, 1, False)), ('list', kt)
     if op in ('+=',):
       return self.gen_expr('int', b, 1, False), 'int'
     if op in ('Min=', 'Max='):
@@ -470,6 +568,9 @@ class Gen:
     ops = ['+=', '+=', 'Min=', 'Max=', 'Count=', 'List=', 'Set=']
     if self.p('argminmax'):
       ops += ['ArgMin=', 'ArgMax=']
+    if self.p('argk') and not getattr(self, '_in_combine', 0):
+      # user-defined K-aggregates (predicate-level only: a group is never empty there)
+      ops += ['ArgMin2=', 'ArgMax2=', 'ArgMin3=', 'ArgMin2=']
     return self.rng.choice(ops)
 
   def gen_combine_assign(self, bound, depth=2):
@@ -481,7 +582,9 @@ class Gen:
     if r.random() < 0.6:
       self._taken = set(bound) | {v}   # sibling combines reuse the same local names
     body, b, local = self.small_body(bound)
+    self._in_combine = getattr(self, '_in_combine', 0) + 1
     op = self.pick_agg_op()
+    self._in_combine -= 1
     if depth > 1 and r.random() < 0.3:
       # nested combine inside the body, correlated with the middle level, reusing names
       inner = self.gen_combine_assign(b, depth - 1)
@@ -536,6 +639,11 @@ class Gen:
               agg_ops[i] = self.pick_agg_op()
           if value is not None and r.random() < 0.7:
             agg_ops['value'] = self.pick_agg_op()
+          if any(op in ('ArgMin2=', 'ArgMax2=', 'ArgMin3=') for op in agg_ops.values()):
+            # K-aggregates are interesting on groups of several rows: few or no key columns
+            for i, a in enumerate(args):
+              if i not in agg_ops and r.random() < 0.7:
+                agg_ops[i] = r.choice(['+=', 'Min=', 'Max=', 'Count='])
         for i, op in agg_ops.items():
           if col_types is None:
             e, t = self.agg_expr(op, bound)
@@ -586,6 +694,8 @@ class Gen:
     """Aggregated expression for a later rule of a multi-body aggregation: must produce the fixed type."""
     if op in ('ArgMin=', 'ArgMax='):
       return ('arrow', self.gen_expr(t, bound, 1, False), self.gen_expr('int', bound, 1, False))
+    if op in ('ArgMin2=', 'ArgMax2=', 'ArgMin3='):
+      return ('arrow', self.gen_expr(t[1], bound, 1, False), self.gen_expr('int', bound, 1, False))
     if op in ('List=', 'Set='):
       return self.gen_expr(t[1], bound, 1, False)
     if op == 'Count=':
@@ -632,17 +742,84 @@ class Gen:
     self.mark('inj_pred')
     return name
 
+  def gen_combine_headed(self):
+    """Body-less single-rule predicates whose value is an aggregating expression:
+    `G() = Op{e :- body}` (concrete, zero arguments) and `Fi(a) = Op{e :- body(a, ...)}` (injectible-only: `a` is
+    bound by the caller). The combine's local variables deliberately use the names callers use."""
+    r = self.rng
+    zero = r.random() < 0.5
+    name = self.fresh_name(['Tot', 'Gz', 'Agg0'] if zero else ['Fi', 'Sub', 'Per'], 'K')
+    self._taken = set(VAR_NAMES[7:])          # x y z u v w p: what callers pick first
+    self._reserved = set()
+    self._reserved_rule_level = set()
+    self._call_bound = set()
+    self._fcalls = []
+    outer = {}
+    a = None
+    if not zero:
+      t = self.scalar_type()
+      a = r.choice(['x', 'y', 'a', 'k'])
+      outer = {a: t}
+      self._taken.add(a)
+      # the body must mention the argument: pick a table with a column of its type
+      cands = [n for n in self.callable_preds() if any(ct == t for (c, ct) in self.preds[n]['cols'])]
+      if not cands:
+        return None
+    body, b, local = self.small_body(outer)
+    if a is not None and a not in ir.prop_vars(body, None, True):
+      body = ('and', tuple(ir_flatten(body)) + (self.correlating_call(a, outer[a], b),))
+    op = r.choice(['+=', '+=', 'Min=', 'Max=', 'Count='])
+    e, vt = self.agg_expr(op, b)
+    value = (('comb', op, e, body), None)
+    if zero:
+      self.rules.append({'pred': name, 'args': [], 'value': value, 'distinct': False, 'body': None})
+      self.preds[name] = {'cols': [('logica_value', vt)], 'fields': ['logica_value'], 'kind': 'fun', 'value_type': vt,
+                          'combine_headed': True}
+      self.mark('combine_headed_concrete')
+    else:
+      self.rules.append({'pred': name, 'args': [(None, ir.V(a), None)], 'value': value, 'distinct': False, 'body': None})
+      self.preds[name] = {'cols': [('col0', outer[a]), ('logica_value', vt)], 'fields': [None, 'logica_value'], 'kind': 'inj',
+                          'value_type': vt, 'combine_headed': True}
+      self.mark('combine_headed_injectible')
+    self.order.append(name)
+    return name
+
+  def correlating_call(self, v, t, bound):
+    """A call that uses variable v (type t) in one of its columns."""
+    r = self.rng
+    cands = [n for n in self.callable_preds() if any(ct == t for (c, ct) in self.preds[n]['cols'])]
+    name = r.choice(cands)
+    meta = self.preds[name]
+    args = []
+    used = False
+    for (c, ct), f in zip(meta['cols'], meta['fields']):
+      if ct == t and not used:
+        args.append((f if f is not None else (None if c != 'logica_value' else 'logica_value'), ir.V(v)))
+        used = True
+      elif f is None and c != 'logica_value':
+        w = self.fresh_var(bound)
+        bound[w] = ct
+        args.append((None, ir.V(w)))
+    return ('call', name, tuple(args))
+
   # -- whole program -------------------------------------------------------------------------
   def program(self):
     r = self.rng
     for _ in range(r.randint(*self.f['n_ext'])):
       self.gen_ext()
+    if self.p('func') and r.random() < 0.5:
+      self.gen_fun_facts()
     if self.p('inj'):
       self.gen_injectible()
-    for _ in range(r.randint(*self.f['n_der'])):
+    n_der = r.randint(*self.f['n_der'])
+    for k in range(n_der):
+      if k == 1 and self.f.get('combine', 0) > 0 and r.random() < 0.5:
+        self.gen_combine_headed()
       self.gen_derived()
     engine = ('Engine', 'sqlite', (('type_checking', 'true'),)) if self.f.get('typed') else ('Engine', 'sqlite')
-    return {'rules': self.rules, 'annotations': [engine], 'preds': self.preds, 'order': list(self.order),
+    from vf.ref import aggregates as _agg
+    prelude = [('raw', _agg.K_AGG_PRELUDE[k]) for k in sorted(self.k_aggs_used)]
+    return {'rules': self.rules, 'annotations': [engine] + prelude, 'preds': self.preds, 'order': list(self.order),
             'features': dict(self.used_features)}
 
 
